@@ -62,9 +62,11 @@ def access_params_rule(ctx: Ctx, rule: str) -> None:
             # ... and nothing else filters them: every nets_ key of the producer is copied, whatever its value
             key_loop = [k for k, st in enumerate(v.steps) if st.kind == "iter" and st.extra == "next" and ast.unparse(st.node.iter) == f"{wk}.params"]
             if key_loop:
-                inner = [ast.unparse(st.node) for st in v.steps[key_loop[-1]:i] if st.kind == "cond"]
-                if inner != [f"not {key}.startswith('nets_')"]:
-                    problems.append((f"access parameters of the producer are additionally filtered: {inner}", v))
+                # the conjunction of the conditions between the key loop and the copy is exactly "the key starts with nets_" (either polarity spelling)
+                inner_f = norm.conj([v.cond_formula(k_) for k_ in range(key_loop[-1], i) if v.steps[k_].kind == "cond"])
+                only = v.formula_of(ast.parse(f"{key}.startswith('nets_')", mode="eval").body, i)
+                if not norm.equivalent(inner_f, only):
+                    problems.append((f"access parameters of the producer are additionally filtered: {norm.show(inner_f)}", v))
             tkey = norm.concat_parts(v.canon(s.targets[0].slice, i))
             if tkey != [key, "'_'", "wid"]:
                 problems.append((f"the copied parameter is not stored under <key>_<producing worker>: {tkey}", v))
